@@ -40,6 +40,19 @@ CLAIMS['C05'] = dict(
     note='Trusted: CPython ast; sa/reftables.py (condition table, unconditional list); the closed effect vocabulary of '
          'sa/flow.py with effect summaries of ArmV6/Registers methods (unknown calls count as effects).')
 
+CLAIMS['C11'] = dict(
+    category='other', design_ref='DESIGN.md section 4 (C11), Appendix A.4',
+    technique='bit-vector abstract interpretation of the exception-entry functions to exact final-state tables, '
+              'compared with a reference model of the architecture pseudocode by BDD equality; AST check of the '
+              'emulate_cycle dispatch map',
+    text='For every take_*_exception (with EnterHypMode / EnterMonitorMode routes), ExcVectorBase and TakeReset the '
+         'final CPSR, banked SPSR and LR (ELR_hyp), SCR.NS and PC are proved equal to the reference model for all PCs, '
+         'CPSR values, control-register values and extension configurations; the dispatch of raised exception classes '
+         'is checked structurally. Decides entry mode, saved state, return address, masks, IT/J/T/E, vector and routing; '
+         'not asynchronous delivery nor HSR syndrome contents.',
+    note='Trusted: CPython ast; sa/refmodel.py (transcription of ARM ARM B1.9 entry pseudocode); sa/bitdom.py. Mock '
+         'predicates (is_external_abort, ...) are free atoms.')
+
 PENDING = 'checker not armed yet in this session (under construction); nothing is claimed for it until its rules run clean'
 
 checks = []
